@@ -9,6 +9,8 @@ an in-memory numpy mirror, independently of the model.
 import json
 import os
 
+import warnings
+
 import numpy as np
 
 from ..lib import core
@@ -57,6 +59,11 @@ THEOREMS = [
     "Nix.C01.C01_dtype_handed_through",
     "Nix.C01.C01_spelling_exact",
     "Nix.C01.C01_spelling_created_type",
+    "Nix.C01.C01_seq_source",
+    "Nix.C01.C01_seq_cast",
+    "Nix.C01.C01_seq_cast_vs_conversion",
+    "Nix.C01.C01_seq_raised_unchanged",
+    "Nix.C01.C01_seq_performed",
 ]
 ASSUMPTIONS = [
     "libhdf5/h5py storage is replaced by an executable stand-in (NdArray: extent change keeps surviving multi-indices "
@@ -73,6 +80,17 @@ ASSUMPTIONS = [
     "rank >= 1 (the property quantifies over ranks 1..4; 0-d arrays are outside the generators)",
     "index items are integers (Python or numpy), slices and Ellipsis; boolean masks and index lists (fancy indexing) "
     "are C06's subject",
+    "dtype spellings: np.dtype(spelling) is modelled as a table (Pure/NdSpell.lean) for x86-64 Linux (C long = 64 "
+    "bit): Python's bool/int/float/str, the NumPy scalar type names, the one-character and sized type codes with "
+    "byte-order prefix, the common type names; every spelling of the harness table is compared with NumPy and nixio "
+    "on every run (sweep); spellings outside the 12 element types (complex, float16, bytes, object, datetime) are "
+    "outside the model",
+    "arrays stored in the other byte order ('>i4', or the type taken from byte-swapped data) get sources of their own "
+    "element type only: libhdf5 converts between a byte-swapped and another type in software with other lossy "
+    "results (wrap instead of saturation, NaN payloads) than the native path the conversion model describes",
+    "sources that are Python sequences (lists, tuples, ranges, scalars) in write_direct / region assignment are cast "
+    "by NumPy inside h5py (numpy.asarray(seq, dtype=<element type>)): modelled by Pure/NdSeq.lean for sequences of "
+    "Python int / float / bool (text parsed into numbers by NumPy is outside the model)",
     "the compiler harness/extract/datasetshape.py renders the Python subset of the array I/O methods faithfully "
     "(expressions over ints and tuples of ints, comprehensions over enumerate/zip, if/raise, try/except-reraise); "
     "statements it only pins as text (string decoding after a read, calibration, name/compression handling in "
@@ -84,7 +102,9 @@ TRUSTED_EXTRA = ["harness/extract/compression.py renders the Compression enum an
                  "harness/extract/datasetshape.py compiles DataSet.append/__getitem__/__setitem__/write_direct/len/"
                  "shape/size/_read_data/_write_data/data_extent, H5DataSet.write_data/read_data/shape, "
                  "DataArray._read_data and the argument rules of Block.create_data_array into Lean definitions over "
-                 "the vocabulary of NixModel/Pure/NdGen.lean"]
+                 "the vocabulary of NixModel/Pure/NdGen.lean",
+                 "harness/extract/datasetdtype.py renders the DataType members, the calls that carry the dtype argument "
+                 "from create_data_array to require_dataset, and compiles the text rule of H5DataSet.__init__"]
 
 DTYPES = ["uint8", "uint16", "uint32", "uint64", "int8", "int16", "int32", "int64", "float32", "float64", "bool",
           "string"]
@@ -501,6 +521,13 @@ class Session:
 
 def apply_step(sess, st, k=1):
     """returns 'ok' or the error class name; for read steps returns an observation dict"""
+    with warnings.catch_warnings():
+        # NumPy warns when a Python float in a list overflows the element type (inf is stored): not an error
+        warnings.simplefilter("ignore", RuntimeWarning)
+        return _apply_step(sess, st, k)
+
+
+def _apply_step(sess, st, k=1):
     da = sess.da
     op = st[0]
     if op == "read":
@@ -1029,7 +1056,8 @@ class Gen:
         Fortran-ordered / byte-swapped / fixed-width text array).  create_data_array and append turn the argument
         into an ndarray first (np.ascontiguousarray), so every spelling means np.asarray(spelling); a whole-array
         write or region assignment hands anything that is not an ndarray to h5py, which reads it with the array's own
-        element type: there such spellings are used for data of the array's element type only."""
+        element type: a memoryview is used there for data of the array's element type only; lists, tuples and ranges
+        of Python numbers for every numeric element type (the model casts them as NumPy does)."""
         r = self.rng
         if r.random() >= 0.3:
             return a
@@ -1057,7 +1085,9 @@ class Gen:
         if dt == "string" and text_ok:
             opts.append("ustr")
         free = (op in ("create", "append") or dt == tgt_dt) and text_ok
-        if free and size > 0 and dt in ("int64", "float64", "bool", "string"):
+        # lists / tuples / ranges of Python numbers in a write or assignment are cast by NumPy to the array's element
+        # type (Pure/NdSeq.lean: OverflowError outside the range, truncation of floats, ValueError for NaN)
+        if (free or dt != "string") and size > 0 and dt in ("int64", "float64", "bool", "string"):
             opts += ["list", "tuple"]
             if dt == "int64" and len(shape) == 1:
                 fl = a["flat"]
@@ -1436,6 +1466,25 @@ FIXED_CASES = [
                                                                   0x7ff0000000000001, 0x36a0000000000000]}},
      "steps": [["append", {"dt": "int64", "shape": [2], "flat": [16777217, -(2 ** 63)]}, 0],
                ["append", {"dt": "string", "shape": [1], "flat": [""]}, 0]]},
+    # sources that are Python sequences: h5py reads them with the array's element type (NumPy's cast: OverflowError
+    # outside the range where array data saturates, floats truncated, NaN ValueError, inf OverflowError)
+    {"fc": "Auto", "bc": "Auto", "ac": "Auto", "refetched": False,
+     "create": {"dtype": "int8", "shape": [2], "data": None, "dspell": "s:i1"},
+     "steps": [["write", {"dt": "int64", "shape": [2], "flat": [5, 300], "sp": "list"}],
+               ["write", {"dt": "int64", "shape": [2], "flat": [5, 300]}],
+               ["assign", {"f": "t", "i": [[0, 2, None]]},
+                {"dt": "float64", "shape": [2], "flat": [0x3ff8000000000000, 0xbff8000000000000], "sp": "tuple"}],
+               ["assign", {"f": "b", "i": [0]}, {"dt": "float64", "shape": [], "flat": [0x7ff8000000000000], "sp": "list"}],
+               ["assign", {"f": "b", "i": [1]}, {"dt": "float64", "shape": [], "flat": [0xfff0000000000000], "sp": "list"}],
+               ["assign", {"f": "b", "i": [1]}, {"dt": "bool", "shape": [], "flat": [True], "sp": "list"}],
+               ["write", {"dt": "int64", "shape": [2], "flat": [-128, -127], "sp": "range"}], ["reopen"],
+               ["append", {"dt": "int64", "shape": [2], "flat": [300, -300], "sp": "list"}, 0]]},
+    {"fc": "Auto", "bc": "Auto", "ac": "No", "refetched": False,
+     "create": {"dtype": "float32", "shape": [3], "data": None, "dspell": "nix:Float"},
+     "steps": [["write", {"dt": "int64", "shape": [3], "flat": [16777217, -(2 ** 63), 2 ** 62 + 2 ** 37 + 1], "sp": "list"}],
+               ["assign", {"f": "t", "i": [[1, 3, None]]},
+                {"dt": "float64", "shape": [2], "flat": [0x47efffffefffffff, 0x3ff0000010000000], "sp": "tuple"}],
+               ["write", {"dt": "float64", "shape": [3], "flat": [0x47efffffefffffff] * 3}]]},
     # append after shrink-then-grow, zero extents
     {"fc": "No", "bc": "DeflateNormal", "ac": "Auto", "refetched": False,
      "create": {"dtype": "int16", "shape": [2, 3], "data": None},
@@ -1671,7 +1720,7 @@ def replay_failure(ctx, fj):
 
 READY = True
 MANIFEST = {
-    "level_text": "Kernel-checked theorems (33, no Mathlib, axioms within propext/Classical.choice/Quot.sound) over a "
+    "level_text": "Kernel-checked theorems (42, no Mathlib, axioms within propext/Classical.choice/Quot.sound) over a "
                   "Lean model of nixio's array I/O logic, tied to the source by a compiler: on every run "
                   "harness/extract/datasetshape.py compiles DataSet.append (every check, comprehension, the resize, "
                   "the hyperslab write, the restore-on-failure), __getitem__/__setitem__/write_direct/len/shape/size/"
@@ -1691,14 +1740,23 @@ MANIFEST = {
                   "target type; complete refused-kinds table; creation reads back the (converted) data; the read "
                   "rule (selection shape, shape (1,) only for rank-0 selections, IndexError for every selection "
                   "error); Ellipsis expansion; shrink-then-grow fill values; content never depends on the gzip "
-                  "flag; complete 3x3x3x2 resolution table.",
+                  "flag; complete 3x3x3x2 resolution table. Spellings of the dtype argument (builtin types, NumPy scalar types, "
+                  "DataType members, dtype objects of either byte order, type strings): the DataType members and the "
+                  "calls that hand the argument to h5py are regenerated from the source, and every spelling NumPy reads "
+                  "as an element type t creates exactly what dtype=t creates; a created array has the element type NumPy "
+                  "means by the spelling. Sources that are Python sequences in a write / assignment (h5py casts them "
+                  "with NumPy): the cast yields values of the element type, is the identity on them, refuses integers "
+                  "out of range (OverflowError), NaN (ValueError), inf; a refused step leaves the array unchanged, a "
+                  "performed one is the array step with the cast values.",
     "level_note": "Partial by nature: libhdf5/h5py storage (extent change, hyperslab write, selection normalisation, "
                   "source broadcasting, element conversion, gzip, close/reopen, variable-length strings) is an "
                   "executable stand-in inside the model; it is exercised, not proved, by the differential runs "
                   "(thousands of seeded histories per run on real HDF5 files in forked workers, all 12 element "
                   "types as array and as source type incl. NaN payloads/-0/extremes/non-ASCII text, ranks 1-4, "
-                  "extents 0-5, index arguments as None / bare item / tuple with Python and numpy integers, slices "
-                  "and Ellipsis, empty and zero-length-surplus sources, every compression triple, reopen at random "
+                  "extents 0-5, dtype arguments in 148 spellings (complete sweep per run), sources as arrays / nested "
+                  "lists / tuples / ranges / memoryviews / strided / Fortran-ordered / byte-swapped / fixed-width text "
+                  "arrays, shapes as tuple / list / NumPy integers / array, index arguments as None / bare item / "
+                  "tuple with Python and numpy integers, slices and Ellipsis, empty and zero-length-surplus sources, every compression triple, reopen at random "
                   "points, bit-pattern comparison after every step) and by the independent numpy-mirror oracle. "
                   "Outside the model: NaN or a float equal to 2^31/2^32/2^63/2^64 written into an integer array (C "
                   "leaves the result undefined), NUL in text, 0-d arrays, boolean masks / index lists (C06). "
